@@ -243,7 +243,8 @@ pub fn run(args: &Args) -> i32 {
             _ => ">=2048",
         };
         // wall limit per child: five times the CPU budget a case may use (quick cases need well under a second)
-        let res = spawn_case(c, Duration::from_secs(if args.thorough() { 600 } else { 120 }));
+        let big = c.source_len > 300_000;
+        let res = spawn_case(c, Duration::from_secs(if big { 3600 } else if args.thorough() { 600 } else { 120 }));
         let v = match res {
             ChildResult::Done(v) => v,
             ChildResult::Died(why) => {
@@ -259,7 +260,7 @@ pub fn run(args: &Args) -> i32 {
                     rec.count("further_cases_that_timed_out_after_three_confirmed_non_terminations", 1);
                     return;
                 }
-                let limit = if args.thorough() { 2400 } else { 400 };
+                let limit = if big { 7200 } else if args.thorough() { 2400 } else { 400 };
                 match spawn_case(c, Duration::from_secs(limit)) {
                     ChildResult::Timeout => rec.violation(Sig::new("non_termination", site_class, &format!("source={len_class}")), json!({"wall_limit_s": limit, "source_len": c.source_len, "estimate": c.estimate, "dict_size": c.dict_size, "chunk": c.chunk}), replay),
                     _ => {
@@ -298,6 +299,10 @@ pub fn run(args: &Args) -> i32 {
             );
             return;
         }
+        // the epoch loop is quadratic in the source length (one pass over the sample per 100 bytes read): a flat budget
+        // would call the few large thorough cases "non terminating". Builds with overflow checks are several times slower.
+        let slow_build = if args.build.starts_with("chk") { 5.0 } else { 1.0 };
+        let cpu_budget = (cpu_budget + 3.0 * (c.source_len as f64 / 100_000.0).powi(2)) * slow_build;
         if cpu > cpu_budget {
             rec.violation(Sig::new("cpu_budget", site_class, &format!("source={len_class}")), json!({"cpu_s": cpu, "budget_s": cpu_budget, "source_len": c.source_len}), replay);
             return;
